@@ -17,6 +17,7 @@ import (
 	"strings"
 	"sync"
 	"sync/atomic"
+	"time"
 
 	lua "github.com/yuin/gopher-lua"
 	"github.com/yuin/gopher-lua/parse"
@@ -294,7 +295,10 @@ func runC13(r *harness.Run) {
 	var states, transitions, execs, deadlocks int64
 	// the free-running pass runs first: when it reports a data race, nondeterminism seen later under
 	// a fixed schedule is a consequence of that race, not a harness defect
+	t0 := time.Now()
 	raceFound := c13RacePass(r)
+	r.Extra["seconds_race_pass"] = int(time.Since(t0).Seconds())
+	t0 = time.Now()
 	outcomes := sync.Map{}
 	pools := make([]*c13Pool, harness.Workers())
 	for i := range pools {
@@ -356,9 +360,14 @@ func runC13(r *harness.Run) {
 			r.NotExhaustive("execution cap reached in scenario " + sc.name)
 		}
 	})
+	r.Extra["seconds_channel_scenarios"] = int(time.Since(t0).Seconds())
+	t0 = time.Now()
 	c13Interference(r, bound, &states, &transitions, &execs)
+	r.Extra["seconds_interference"] = int(time.Since(t0).Seconds())
+	t0 = time.Now()
 	c13Payloads(r)
 	c13ProtoFamilies(r)
+	r.Extra["seconds_payloads_and_shared_prototypes"] = int(time.Since(t0).Seconds())
 	r.Extra["states"] = states
 	r.Extra["transitions"] = transitions
 	r.Extra["traces_validated_against_impl"] = execs
